@@ -132,5 +132,45 @@ PROPS["C02"] = {
     "exhaustive": False,
 }
 
+_DIFF_COMMON = ("programs from the typed generator (genp.rs; <= 10 top-level statements, expression depth <= 3-4, unique effect ids appended to a log cell by tick helpers), each rendered with literal constants and with every constant hidden behind an identity call, "
+                "both executed through Code::parse + exec_unscoped; ")
+_DIFF_REF = ("each accepted run is compared with an independent reference evaluator (refeval.rs: lexical scoping with snapshot capture, left-to-right exactly-once evaluation, short-circuit logic, documented arithmetic / slices / iterator list semantics, cells with identity); "
+             "the payload of an exhausted iterator step and anything the reference cannot decide is not judged; a violation is shrunk on the AST while the same class persists. distinct_nontrivial = distinct program texts.")
+
+def _diff(prop, focus, judged, technique, floors_extra=None):
+    floors = {"programs": 20000, "shape:constructs": 70}
+    floors.update(floors_extra or {})
+    tfloors = dict(floors); tfloors["programs"] = 300000
+    return {
+        "budget": {"quick": 50, "thorough": 540},
+        "rule": _DIFF_COMMON + focus + " " + judged + " " + _DIFF_REF,
+        "assumptions": COMMON_ASSUME + ["the reference evaluator implements the documented semantics; where the documentation leaves a value open the comparison skips it",
+                                        "programs the checker rejects are counted, never judged; fuel / depth exhaustion is inconclusive"],
+        "floors": {"quick": floors, "thorough": tfloors},
+        "technique": technique,
+        "level_text": "Tens of thousands (quick) to millions (thorough) of generated programs are executed by the real interpreter and by an independent reference evaluator / as constant-hidden twins; any observable difference in the judged aspect is a violation with a shrunk witness. Exploration of the generator's program space.",
+        "level_note": "reach = what genp.rs emits with this property's profiles; trusts refeval.rs as the documented semantics",
+        "exhaustive": False,
+    }
+
+PROPS["C04"] = _diff("C04", "profiles twins / twins-errors / twins-control put constants in every position (operands of every operator, conditions, both sides of && and ||, index and slice bounds, array / tuple / struct elements, repeat value and length, match scrutinees and value arms, through := and destructuring, call arguments, cell initialisers, captured by closures, dropped statements).",
+    "Judged: literal twin vs hidden twin only - equal result and equal effect log when both complete, neither fails at run time where the other completes; a parse-time error of the literal twin that is one of the six runtime errors is the permitted difference; acceptance differences and both failing are recorded, not flagged.",
+    "runtime twin-differential monitor (literal vs constant-hidden rendering of one AST)", {"twins-both-complete": 6000, "twins-permitted-parse-time-error": 300, "twins-both-fail-at-run-time": 200})
+PROPS["C06"] = _diff("C06", "profiles scopes / scopes-few-names use the helper closures' own local names (res, con, value, func, mapper, predicate, iterator, default, array, i, len, acc, curr, iter) for user variables, heavy shadowing and re-declaration after capture, closures returned / passed / stored, recursion, modules, user-written iterators consumed by every iterator operator and by for.",
+    "Judged: result and effect log vs the reference (name resolution, scope ends, snapshot capture with shared cells, self reference, module = exactly its own names).",
+    "runtime differential monitor vs reference evaluator (scoping / capture profile)", {"agree-with-reference:A": 5000})
+PROPS["C07"] = _diff("C07", "profiles order / order-calls wrap 85-90 % of all scalar operands (operands of every operator incl. the 12 assignments, call arguments after the callee, array / tuple / struct elements, repeat, index, slice bounds, `$ init f` operands, conditions, match candidates) in tick helpers.",
+    "Judged: the effect log only (order, exactly-once, short-circuit, only the chosen branch, candidates top to bottom); result differences belong to other properties and are not flagged here.",
+    "runtime effect-log monitor vs reference evaluator (unique ids per effectful operand)", {"agree-with-reference:A": 5000, "ref_log_entries": 100000})
+PROPS["C11"] = _diff("C11", "profiles iterators / iterators-shared: array-derived and user-written stateful sources, pipelines of @ ? `? T` stages, every consumer ($] \\ `$ init f` $+ $* $&& $|| $& $| for), manual pulls interleaved with consumers on shared sources, pulls after exhaustion.",
+    "Judged: results and the pull / callback effect log vs list semantics (each element pulled once in order, lazy stages, one application per element examined, documented identities, $&& / $|| stopping at the deciding element).",
+    "runtime history monitor vs list-semantics reference (pull / callback log with unique ids)", {"agree-with-reference:A": 5000, "ref_iterator_pulls": 100000})
+PROPS["C12"] = _diff("C12", "profile control: nestings (depth <= 4) of if / match (value, type, default arms) / if-set / while-set / loop / while / for inside functions with break / continue / return at every depth inside blocks, branches and arms; scrutinees over every member of int|string.",
+    "Judged: which branch markers reach the log and the final values vs the reference (first arm top to bottom, runtime-type tests, innermost loop / function exits, loops yield (), blocks their last statement).",
+    "runtime branch-marker monitor vs reference evaluator", {"agree-with-reference:A": 5000})
+PROPS["C13"] = _diff("C13", "profiles cells / cells-closures: aliasing graphs (cells bound twice, in arrays / tuples / structs, captured by closures, passed as arguments), declared types incl. unions and arrays, sequences of all 12 assignment operators incl. failing ones, right-hand sides that themselves assign.",
+    "Judged: every read and every assignment's yielded value (through results) and the effect log vs a reference heap; cell contents reachable from the result compared up to identity isomorphism.",
+    "runtime heap-model monitor vs reference evaluator (cells with identity)", {"agree-with-reference:A": 5000})
+
 # properties deliberately not claimed (reason each); anything else missing from PROPS is simply not built yet
 NOT_APPLICABLE = {}
